@@ -168,12 +168,15 @@ def _f(lo, hi):
 
 
 @st.composite
-def st_band(draw):
+def st_band(draw, wide=True):
     """fs, f_range with period at f_lo mostly in [10, 64] samples (a third: 4..9 or 65..260), f_hi < 0.45 fs."""
     fs = draw(st.one_of(st.sampled_from(FS_CHOICES), st.sampled_from(FS_CHOICES),
                         st.integers(500, 20000).map(lambda v: v / 10.0)))
-    p_lo = draw(st.one_of(st.integers(10, 64).map(float), _f(10, 64), st.integers(10, 64).map(float), _f(10, 64),
-                          st.integers(4, 9).map(float), st.integers(65, 260).map(float)))   # fast rhythms at low rates, slow ones at high rates
+    if wide:
+        p_lo = draw(st.one_of(st.integers(10, 64).map(float), _f(10, 64), st.integers(10, 64).map(float), _f(10, 64),
+                              st.integers(4, 9).map(float), st.integers(65, 260).map(float)))   # fast rhythms at low rates, slow ones at high rates
+    else:
+        p_lo = draw(st.one_of(st.integers(10, 64).map(float), _f(10, 64)))
     f_lo = fs / p_lo
     r = draw(st.one_of(st.sampled_from([1.25, 1.5, 2.0, 3.0]), _f(1.25, 3.0)))
     f_hi = min(f_lo * r, 0.45 * fs)
@@ -238,7 +241,7 @@ def st_component(draw, band, n):
 
 @st.composite
 def st_post(draw):
-    t = draw(st.sampled_from(['quantise', 'intquant', 'clip', 'zero', 'hold', 'dc', 'scale', 'negate', 'taper']))
+    t = draw(st.sampled_from(['quantise', 'intquant', 'clip', 'zero', 'hold', 'dc', 'scale', 'scale', 'negate', 'taper']))
     if t == 'taper':
         return {'type': t, 'frac': draw(st.sampled_from([0.2, 0.5, 1.0]))}
     if t == 'quantise':
@@ -254,7 +257,9 @@ def st_post(draw):
     if t == 'dc':
         return {'type': t, 'offset': draw(st.sampled_from([-100.0, -1.0, 0.5, 3.0, 1000.0, 1.0e6, -3.0e7]))}
     if t == 'scale':
-        return {'type': t, 'e': draw(st.integers(-3, 3))}
+        # six decades around 1, and now and then data kept in SI units (tesla, volts) or raw ADC counts with a large gain:
+        # nothing in the statements depends on the unit, absolute tolerances in the code would
+        return {'type': t, 'e': draw(st.one_of(st.integers(-3, 3), st.integers(-3, 3), st.sampled_from([-15, -13, -10, -8, -6, 6, 9, 12])))}
     return {'type': 'negate'}
 
 
